@@ -266,7 +266,13 @@ def layout_phase(run, tier, seed):
     wins = read_ndjson(tok_shards)
     skipped = [w for w in wins if 'skip' in w]
     if skipped:
-        raise pl.Machinery('texts without tokens: %s' % skipped[:3])
+        # the model hands back the comment-free text only of a text whose ignore_comments result it accepted: a text
+        # that was rejected in B1 (a violation reported from treports) simply has no windows
+        rejected = {r['cid'] for r in treports if any(o['verdict'] in ('reject', 'dev') for o in r['other'])}
+        unexplained = [w for w in skipped if 't-%s' % w['tid'] not in rejected]
+        if unexplained:
+            raise pl.Machinery('texts without tokens: %s' % unexplained[:3])
+        wins = [w for w in wins if 'skip' not in w]
     by_tid = {t['tid']: t for t in texts}
 
     def tokens_file(name, pred):
